@@ -343,10 +343,11 @@ class Impl(object):
 
     @staticmethod
     def reset_sticky_block_numbers():
-        ''' ``CanonicalBlock() / PreviousNodeBlock(...)`` shares the class-level scapy overload dict, and
-        BundleContainer._fix_blk_num() writes the chosen block number into it: the number sticks for every
-        later block of that type in the process (reported separately, not a C05 matter).  Cleared here so
-        that every send request is observed as the first one of a process (replays are then identical). '''
+        ''' Before repository commit ed76b97 ``CanonicalBlock() / PreviousNodeBlock(...)`` shared the class-level
+        scapy overload dict and BundleContainer._fix_blk_num() wrote the chosen block number into it, so the
+        number stuck for every later block of that type in the process (a forwarding matter, not C05; fixed).
+        Clearing it is a no-op on the fixed tree and makes every send request on an older tree be observed as
+        the first one of a process (replays are then identical). '''
         from bp.encoding import CanonicalBlock
         for (_fval, cls) in list(getattr(CanonicalBlock, 'payload_guess', [])):
             over = (getattr(cls, '_overload_fields', None) or {}).get(CanonicalBlock)
@@ -603,8 +604,8 @@ def run_cases(cases, label):
     heavy = [idx for idx in idxs if cases[idx]['plen'] >= 20000]
     light = [idx for idx in idxs if cases[idx]['plen'] < 20000]
     try:
-        for (part, name, chunk) in ((heavy, label + 'big', 1), (light, label, max(20, (len(light) + 15) // 16))):
-            res = chk.coq_eval(name, ['Model.BpFrag'], [terms[idx] for idx in part], 'BpFrag.run_case', chunk=chunk, timeout=1200)
+        for (part, name, chunk) in ((heavy, label + 'big', 1), (light, label, max(20, (len(light) + 31) // 32))):
+            res = chk.coq_eval(name, ['Model.BpFrag'], [terms[idx] for idx in part], 'BpFrag.run_case', chunk=chunk, timeout=2400)
             for (idx, val) in zip(part, res):
                 ((ok, code), outs) = (val[0:2], val[2]) if len(val) == 3 else (val[0], val[1])
                 model[idx] = (ok, code, outs)
@@ -766,8 +767,8 @@ ASSUMPTIONS = [
     'transmitted length (CRC placeholders have the final width)',
     'outside the model: duplicate block numbers, administrative-record payloads, EIDs altered by the text conversion, routes without a CL object, '
     'bundles without a payload block (modelled as NoPayload = sent as is; not generated)',
-    'the process-wide sticky block numbers of blocks built as CanonicalBlock()/X (scapy overload dict shared by the class) are cleared before '
-    'every run: each send request is observed as the first one of a process',
+    'one agent is reused across cases (route MTU switched; duplicate-suppression set, reassembly table and -- for trees older than ed76b97 -- the '
+    'class-level sticky block numbers cleared before every run): each send request is observed as the first one of a process',
     'security policy: the BPSec apply step is abstract in the theorems (any bundle transformer); the implementation is run with the default policy '
     'shape (sign the payload of own-source bundles) and an HMAC-256 key',
 ]
